@@ -11,7 +11,13 @@ ASSUMPTIONS = ["scipy's inv/pinv/pinvh return a two-sided inverse of the assembl
                "covariance values are taken from the real model and handed to the Lean side bit-for-bit; the assembly, right-hand sides, chunk loop, kernel and clipping are compared for equality",
                "data preparation / post-processing: the Lean side evaluates the normaliser with the model of C18 (libm vs numpy: compared within 1e-12 relative); "
                "the order of the steps is additionally compared bit-for-bit with the real normaliser's values of the detrended data",
-               "histories: a freshly constructed object is built from the model parameters read back through public attributes (C14 covers the setters)"]
+               "histories: a freshly constructed object is built from the model parameters read back through public attributes (C14 covers the setters); "
+               "after fit_variogram / fit_normalizer it is given a copy of the fitted model / the fitted normaliser parameters and does not fit "
+               "(what the fits return is C10 / C18; here only that kriging uses the fitted state consistently)",
+               "target positions are abstract identifiers in the protocol model: two position sets handed over in different operations are different "
+               "identifiers however close their coordinates are; the harness generates such sets (relative changes 1e-12..1e-2, magnitudes 1e-3..6e7)",
+               "the reference normaliser formulas take the limit form inside the code's np.isclose band of exponent 0 (2 for Yeo-Johnson): only fitted "
+               "exponents fall strictly inside it (the predicate itself is modelled in C18)"]
 
 
 def layout(kr):
@@ -59,7 +65,7 @@ def _correspondence(ctx, on_data=False):
     dist = {}
     samples = []
     for t in range(N):
-        cfg = kc.gen_config(rng)
+        cfg = kc.gen_config(rng, strat=t)
         if on_data:   # C06: targets on (a shuffled subset of) the conditioning points, plus one free point
             k = cfg["cond_pos"].shape[1]
             sel = rng.permutation(k)[: max(1, k // 2)]
@@ -216,11 +222,16 @@ def _correspondence(ctx, on_data=False):
                     "right-hand sides and conditions (captured at the kernel entry) and the returned field/variance are compared "
                     "bit-for-bit with the Lean model; the prepared conditions and the post-processed field are recomputed by the "
                     "model from raw values / trend / mean / normaliser parameters (1e-12 relative); histories of model edits, "
-                    "mean/normalizer/trend re-assignments, set_condition forms and calls on one object are compared with freshly "
-                    "constructed objects wherever the Lean protocol model says the two coincide (bit-for-bit); get_mean(post_process=False) "
+                    "mean/normalizer/trend re-assignments, set_condition forms (with fit_variogram / fit_normalizer, also in the constructor) and "
+                    "calls on one object — targets new / nearly equal to the previous ones (relative changes 1e-12..1e-2, coordinate magnitudes "
+                    "1e-3..6e7) / repeated / not passed (reuse) / set by set_pos / the same tuple under the other mesh type / the grid of the "
+                    "stored axes, through __call__, structured(), unstructured() — are compared with freshly constructed objects that are given "
+                    "the targets the Lean protocol model names, wherever the model says the two coincide (bit-for-bit); the model's refusals must "
+                    "be ValueErrors and the public pos / mesh_type the positions the model stores; every second case is stratified over "
+                    "variant x exact flag x nugget > 0, a third lives in an affine coordinate frame, a quarter has targets on data; get_mean(post_process=False) "
                     "vs the model's cond.M.e_n (1e-12 of the sum of magnitudes; einsum order) and only_mean field == get_mean (exact); "
                     "generate_grid + C-order index decoding vs Model/Grid.lean (exact, gridtie); "
-                    "distinct = distinct (stage, variant/layout/options | normalizer/mean/trend kinds | history op pattern)",
+                    "distinct = distinct (stage, variant/layout/options | normalizer/mean/trend kinds | history op pattern | target kind x mesh type x framed)",
             "samples": samples, "disagreements": dis[:8], "distribution": dist}
 
 
@@ -234,14 +245,25 @@ def same_result(r1, r2):
             and ((r1[2] is None and r2[2] is None) or (r1[2] is not None and r2[2] is not None and np.array_equal(r1[2], r2[2], equal_nan=True))))
 
 
+def call_desc(ev):
+    """JSON-friendly description of one call of a history"""
+    f = lambda v: v.tolist() if isinstance(v, np.ndarray) else ([np.asarray(a).tolist() for a in v] if isinstance(v, list) else v)
+    d = {k: f(v) for k, v in ev["kw"].items()}
+    d.update(kind=ev["kind"], pos=f(ev["tp"]), mesh_type="structured" if ev["mesh"] else "unstructured", via_method=ev["via"],
+             requested_targets=None if ev["flat"] is None else ev["flat"].tolist())
+    return d
+
+
 def history_correspondence(ctx, rng, on_data=False):
-    """the refresh protocol: histories on one real Krige object vs the Lean protocol model (`krige_history`).
-    Where the model says a call combines exactly what a fresh object combines, the real result must be
-    bit-identical to that of a freshly constructed real object (same model parameters, current conditions)."""
+    """the refresh protocol and the target positions: histories on one real Krige object vs the Lean protocol model
+    (`krige_history`).  Where the model says a call combines exactly what a fresh object combines AT THE TARGETS THE
+    MODEL NAMES, the real result must be bit-identical to that of a freshly constructed real object (same model
+    parameters, current conditions) that is given those targets; the model's refusals (no positions / positions of the
+    other mesh type) must be ValueErrors; the public `pos`/`mesh_type` must be the positions the model stores."""
     H = ctx.scale(50, 400)
     ops, real, dis, dist, distinct = [], [], [], {}, set()
     for t in range(H):
-        cfg = kc.gen_config(rng)
+        cfg = kc.gen_config(rng, strat=t)
         calls = []
         zero = str(rng.choice(["exact", "zero-err", "no-nugget"])) if on_data else None
         if zero:
@@ -250,8 +272,9 @@ def history_correspondence(ctx, rng, on_data=False):
             for ev in kc.run_history(rng, cfg, segments=int(rng.randint(2, 5)), zero_mode=zero):
                 h = ev["hist"]
                 fr, _ = h.fresh() if ev["synced"] else (None, None)
-                r2 = h.call(ev["tp"], ev["kw"], obj=fr) if fr is not None else None
-                calls.append((ev["res"], r2, ev["synced"], list(h.log), dict(ev["kw"], pos=ev["tp"])))
+                ev["r2"] = h.call_fresh(ev, fr) if fr is not None else None
+                ev["log"] = list(h.log)
+                calls.append(ev)
         except Exception as e:   # a configuration / operation the API rejects
             k = "history-rejected:" + type(e).__name__
             dist[k] = dist.get(k, 0) + 1
@@ -267,25 +290,48 @@ def history_correspondence(ctx, rng, on_data=False):
         if len(r) != len(calls):
             dis.append({"what": "kriging HISTORY: number of calls differs between model and harness", "log": h.log})
             continue
-        for (r1, r2, synced, log, kw), mo in zip(calls, r):
+        for ev, mo in zip(calls, r):
             n += 1
+            r1, r2, synced, log = ev["res"], ev["r2"], ev["synced"], ev["log"]
             last = [l for l in log if not l.startswith("call")][-2:]
             pat = "history:" + cfg["variant"] + ":" + ">".join(last) + (":fresh" if mo["eq_fresh"] else ":stale")
             dist[pat] = dist.get(pat, 0) + 1
             distinct.add(("HISTORY", pat))
+            tk = "targets:" + ev["kind"] + (":structured" if ev["mesh"] else ":unstructured") + (":framed" if cfg.get("frame") else "")
+            dist[tk] = dist.get(tk, 0) + 1
+            distinct.add(("TARGETS", tk))
+            base = {"variant": cfg["variant"], "log": log, "model": mo, "call": call_desc(ev), "cfg": kc.describe(h.cur)}
+            # -- target positions: refusals, identifiers, public attributes
+            given_m = None if mo["given"] is None else mo["given"][0]
+            stored_m = None if mo["stored"] is None else (mo["stored"][0], bool(mo["stored"][1]))
+            want_stored = None if ev["given"] is None else (ev["given"], bool(h.pos_ids[ev["given"]][1]))
+            if given_m != ev["given"] or stored_m != want_stored:
+                dis.append(dict(base, what="kriging TARGETS: harness and protocol model disagree about the positions last given / stored"))
+                continue
+            if not ev["stored_ok"]:
+                dis.append(dict(base, what="kriging TARGETS: the public pos / mesh_type of the object are not the positions the model stores "
+                                           "(the ones last given by a call or set_pos)"))
+                continue
+            if bool(mo["error"]) != (r1[0] == "error") or (r1[0] == "error" and r1[1] != "ValueError"):
+                dis.append(dict(base, what="kriging TARGETS: the model refuses the call (no positions to reuse) where the implementation answers, "
+                                           "or the other way round", real=list(r1[:2]) if r1[0] == "error" else "ok"))
+                continue
+            if mo["error"]:
+                continue
+            tgt_m = (mo["res"][9], bool(mo["res"][10]))
+            if ev["req"] is None or tgt_m != (ev["req"], bool(h.pos_ids[ev["req"]][1])):
+                dis.append(dict(base, what="kriging TARGETS: harness and protocol model disagree about the targets the call evaluates"))
+                continue
             if bool(mo["eq_fresh"]) != bool(synced):
-                dis.append({"what": "kriging HISTORY: harness and protocol model disagree about the state", "log": log, "model": mo})
+                dis.append(dict(base, what="kriging HISTORY: harness and protocol model disagree about the state"))
                 continue
             if not mo["eq_fresh"] or r2 is None:
                 continue
             if not same_result(r1, r2):
-                dis.append({"what": "kriging HISTORY: call on an object with a history differs from a freshly constructed object "
-                                    "although the protocol model says they coincide",
-                            "variant": cfg["variant"], "log": log, "model": mo,
-                            "call": {k: (v.tolist() if isinstance(v, np.ndarray) else v) for k, v in kw.items()},
-                            "real": [None if x is None else np.asarray(x).tolist() for x in r1[1:]] if r1[0] == "ok" else list(r1),
-                            "fresh": [None if x is None else np.asarray(x).tolist() for x in r2[1:]] if r2[0] == "ok" else list(r2),
-                            "cfg": kc.describe(h.cur)})
+                dis.append(dict(base, what="kriging HISTORY: call on an object with a history differs from a freshly constructed object given the "
+                                           "targets the protocol model names, although the model says they coincide",
+                                real=[None if x is None else np.asarray(x).tolist() for x in r1[1:]] if r1[0] == "ok" else list(r1),
+                                fresh=[None if x is None else np.asarray(x).tolist() for x in r2[1:]] if r2[0] == "ok" else list(r2)))
     return dict(evaluations=n, disagreements=dis[:4], distribution=dist, distinct=distinct)
 
 
@@ -372,7 +418,7 @@ def _search(ctx, deep=False):
     viol, ev = probe_d16(), 1
     tags = {}
     for t in range(N):
-        cfg = kc.gen_config(rng)
+        cfg = kc.gen_config(rng, strat=t)
         try:
             with warnings.catch_warnings():
                 warnings.simplefilter("ignore")
@@ -471,7 +517,8 @@ def _search(ctx, deep=False):
                                  "got": np.asarray(f5).tolist()})
         # structured = unstructured
         if cfg["fdim"] == 2 and not cfg["ext"] and not cfg["latlon"]:
-            x, y = np.linspace(0, 5, 4), np.linspace(-1, 3, 3)
+            o, u = kc.origin_of(cfg), kc.unit_of(cfg)
+            x, y = o[0] + u * np.linspace(0, 5, 4), o[1] + u * np.linspace(-1, 3, 3)
             pp = bool(rng.rand() < 0.5)
             fs = kr((x, y), mesh_type="structured", return_var=False, post_process=pp, store=False)
             g = np.array(np.meshgrid(x, y, indexing="ij")).reshape(2, -1)
@@ -489,34 +536,66 @@ def _search(ctx, deep=False):
                        + hsum}
 
 
+def last_setup(log):
+    """["set_condition:<form>[+fit:…]"] of the last (re-)conditioning, ["constructed[+fit:…]"] if there was none"""
+    idx = [i for i, l in enumerate(log) if l.startswith("set_condition")]
+    if idx:
+        i = idx[-1]
+        fit = log[i + 1] if i + 1 < len(log) and log[i + 1].startswith("fit:set_condition") else None
+        return [log[i] + ("" if fit is None else "+fit:" + fit.split(":", 2)[2])]
+    fit = log[0] if log and log[0].startswith("fit:constructed") else None
+    return ["constructed" + ("" if fit is None else "+fit:" + fit.split(":", 2)[2])]
+
+
 def search_histories(ctx, rng, deep=False, zero=False):
-    """random histories on one Krige object: after a set_condition (any argument form) every call equals a freshly
-    constructed object (bit-for-bit) and the independent solve with the current model and conditions"""
+    """random histories on one Krige object: after a set_condition (any argument form) every call — at new, nearly
+    equal (relative changes 1e-12..1e-2 at magnitudes 1e-3..6e7), repeated or no positions, under either mesh type,
+    through __call__ / structured() / unstructured() / set_pos — equals a freshly constructed object that is given the
+    requested targets (bit-for-bit) and the independent solve at exactly those targets; the public pos / mesh_type are
+    the positions last given; position-less calls with nothing to reuse raise ValueError"""
     H = ctx.scale(80, 600) * (3 if deep else 1)
-    viol, ev, forms = [], 0, {}
+    viol, ev, forms, kinds, nan_cases, fits = [], 0, {}, {}, 0, {}
     for t in range(H):
-        cfg = kc.gen_config(rng)
+        logpos = 0
+        cfg = kc.gen_config(rng, strat=t)
         zmode = str(rng.choice(["exact", "zero-err", "no-nugget"])) if zero else None
         if zmode:
             cfg = zero_cfg(cfg, zmode)
         try:
             for e in kc.run_history(rng, cfg, segments=int(rng.randint(2, 5)), zero_mode=zmode):
+                h, kw, r1 = e["hist"], e["kw"], e["res"]
+                cur = h.cur
+                last = last_setup(h.log)
+                case = {"history": list(h.log), "call": call_desc(e), "current": kc.describe(cur), "model": repr(h.kr.model)}
+                kinds[e["kind"]] = kinds.get(e["kind"], 0) + 1
+                for l in h.log[logpos:]:
+                    if l.startswith("fit:"):
+                        fits[l[4:]] = fits.get(l[4:], 0) + 1
+                logpos = len(h.log)
+                # positions: what is stored is what was given; nothing to reuse -> ValueError (also in stale states)
+                ev += 1
+                if not e["stored_ok"]:
+                    viol.append({"key": "krige:history:stored-pos", "what": "after a " + e["kind"] + " call the public pos / mesh_type of the "
+                                 "object are not the positions last given to it", "case": case})
+                if e["req"] is None:
+                    if r1 != ("error", "ValueError"):
+                        viol.append({"key": "krige:history:no-positions", "what": "a call without positions and nothing to reuse does not "
+                                     "raise ValueError", "case": case, "got": list(r1[:2]) if r1[0] == "error" else "ok"})
+                        break
+                    continue
                 if not e["synced"]:
                     continue
-                h, tp, kw, r1 = e["hist"], e["tp"], e["kw"], e["res"]
                 fr, mod = h.fresh()
                 if fr is None:
                     continue
-                cur = h.cur
-                last = [l for l in h.log if l.startswith("set_condition")][-1:] or ["constructed"]
                 forms[last[0]] = forms.get(last[0], 0) + 1
-                case = {"history": list(h.log), "call": {k: (v.tolist() if isinstance(v, np.ndarray) else v) for k, v in kw.items()},
-                        "pos": tp.tolist(), "current": kc.describe(cur), "model": repr(h.kr.model)}
-                r2 = h.call(tp, kw, obj=fr)
+                tp = e["flat"]
+                r2 = h.call_fresh(e, fr)
                 ev += 1
                 if not same_result(r1, r2):
                     viol.append({"key": "krige:history:fresh-object:" + cfg["variant"],
-                                 "what": "after " + last[0] + " a call differs from a freshly constructed object with the current model and conditions",
+                                 "what": "after " + last[0] + " a " + e["kind"] + " call differs from a freshly constructed object (current model "
+                                         "and conditions) that is given the requested targets",
                                  "case": case, "got": [None if x is None else np.asarray(x).tolist() for x in r1[1:]] if r1[0] == "ok" else list(r1),
                                  "want": [None if x is None else np.asarray(x).tolist() for x in r2[1:]] if r2[0] == "ok" else list(r2)})
                     break
@@ -525,31 +604,39 @@ def search_histories(ctx, rng, deep=False, zero=False):
                 ref = kc.solve_direct(cur, mod, tp, ext_t=kw.get("ext_drift"), only_mean=kw["only_mean"])
                 if ref["cond"] > 1e7:
                     continue
+                if not np.all(np.isfinite(ref["z"])):
+                    # data outside the range of a (badly) fitted normaliser: no kriging system to compare with; the object
+                    # was still compared with the fresh one above
+                    nan_cases += 1
+                    continue
                 tol = 1e-9 * max(ref["cond"], 1) * (1 + np.abs(ref["raw"]).max())
                 ev += 1
+                got_f = np.asarray(r1[1]).reshape(-1)
+                got_v = None if r1[2] is None else np.asarray(r1[2]).reshape(-1)
                 if kw["post_process"]:
-                    ok = close_nan(r1[1], kc.ref_post(cur, ref["raw"], tp), post_tol(cur, ref["raw"], tp, tol))
+                    ok = close_nan(got_f, kc.ref_post(cur, ref["raw"], tp), post_tol(cur, ref["raw"], tp, tol))
                 else:
-                    ok = np.allclose(r1[1], ref["raw"], atol=tol)
-                if r1[2] is not None:
-                    ok = ok and np.allclose(r1[2], ref["var"], atol=tol)
+                    ok = close_nan(got_f, ref["raw"], tol)
+                if got_v is not None:
+                    ok = ok and np.allclose(got_v, ref["var"], atol=tol)
                 if not ok:
                     viol.append({"key": "krige:history:direct-solve:" + cfg["variant"],
-                                 "what": "after " + last[0] + " a call differs from solving the kriging system of the current model and conditions",
+                                 "what": "after " + last[0] + " a " + e["kind"] + " call differs from solving the kriging system of the current "
+                                         "model and conditions at the requested targets",
                                  "case": case, "got": [None if x is None else np.asarray(x).tolist() for x in r1[1:]],
                                  "want": [ref["raw"].tolist(), ref["var"].tolist()], "cond": ref["cond"]})
                     break
                 # C06: exact interpolation of the CURRENT data by the object with a history
-                if zero and e.get("sel") is not None and r1[2] is not None:
+                if zero and e.get("sel") is not None and got_v is not None:
                     want = cur["cond_val"][e["sel"]]
                     dtol = data_tol(cur, ref["cond"], e["sel"])
                     vexp = mod.nugget if zmode == "zero-err" else 0.0
                     ev += 1
-                    if not (close_nan(r1[1], want, dtol) and np.all(np.abs(r1[2] - vexp) <= 1e-7 * mod.sill * max(1.0, ref["cond"] / 1e3))):
+                    if not (close_nan(got_f, want, dtol) and np.all(np.abs(got_v - vexp) <= 1e-7 * mod.sill * max(1.0, ref["cond"] / 1e3))):
                         viol.append({"key": f"krige:history:exactness:{cfg['variant']}:{zmode}",
-                                     "what": "after " + last[0] + " the kriged field at the conditioning points differs from the current data "
-                                             "(or the variance there is not the expected one)",
-                                     "case": case, "got": [np.asarray(r1[1]).tolist(), np.asarray(r1[2]).tolist()], "want": np.asarray(want).tolist(),
+                                     "what": "after " + last[0] + " the kriged field at the conditioning points (" + e["kind"] + " call) differs from "
+                                             "the current data (or the variance there is not the expected one)",
+                                     "case": case, "got": [got_f.tolist(), got_v.tolist()], "want": np.asarray(want).tolist(),
                                      "cond": ref["cond"]})
                         break
                 # get_mean of the object with a history
@@ -565,4 +652,7 @@ def search_histories(ctx, rng, deep=False, zero=False):
         except Exception as ex:
             ctx.notes.append(f"history rejected: {type(ex).__name__}: {ex}")
             continue
-    return viol[:6], ev, f"{H} operation histories (model edits, mean/normalizer/trend re-assignment, set_condition forms {sorted(forms)}) vs fresh objects and the direct solve"
+    return viol[:6], ev, (f"{H} operation histories (model edits, mean/normalizer/trend re-assignment, set_condition forms {sorted(forms)}; "
+                          f"target kinds {sorted(kinds)}: new / nearly equal / repeated / no positions, both mesh types, set_pos; fit_variogram / fit_normalizer "
+                          f"in the constructor and in set_condition: {fits}) vs fresh objects given the requested targets and the direct solve there"
+                          f" ({nan_cases} calls not compared with the solve: data outside the range of the fitted normaliser)")
